@@ -782,8 +782,14 @@ func execC18(a []string) Result {
 		extra = append(extra, hexTok([]byte(rl.Artifacts["did"])), rl.Artifacts["did-bytes"])
 	case "key":
 		extra = append(extra, hexTok([]byte(rl.Artifacts["did"])), rl.Artifacts["did-bytes"], rl.Artifacts["signer"], rl.Artifacts["verifier"], rl.Artifacts["signature"])
+		if s, ok := rl.Artifacts["signer-string"]; ok {
+			extra = append(extra, hexTok([]byte(s))) // the stored key text, read by the text-form model
+		}
 	case "token", "world":
 		extra = append(extra, rl.Artifacts["archive"])
+		if s, ok := rl.Artifacts["format"]; ok {
+			extra = append(extra, hexTok([]byte(s))) // the stored delegation text
+		}
 	}
 	return Result{Args: append([]string{a[0]}, extra...), Impl: impl, Oracle: oracle}
 }
